@@ -6,6 +6,7 @@
 //     to other translated functions, conversions, + - * / % << >> & | ^ with
 //     the wrap dictated by the static type of each subexpression);
 //   - "enum maps": functions whose body is one switch returning constants.
+//
 // A function outside the subset is reported as untranslatable (never
 // silently skipped): its name is listed in gen/Untranslatable.v.
 package main
@@ -14,17 +15,37 @@ import (
 	"flag"
 	"fmt"
 	"os"
+	"strings"
 )
 
 func main() {
 	repo := flag.String("repo", "/repo", "repository root")
 	out := flag.String("out", "", "output directory")
+	onlyF := flag.String("only", "", "comma separated task names (default: all)")
+	listF := flag.Bool("tasks", false, "print task names and the directories they read, then exit")
 	flag.Parse()
+	if *listF {
+		for t, d := range taskDirs {
+			fmt.Println(t, strings.Join(d, " "))
+		}
+		return
+	}
+	only := map[string]bool{}
+	for t := range taskDirs {
+		if *onlyF == "" {
+			only[t] = true
+		}
+	}
+	for _, t := range strings.Split(*onlyF, ",") {
+		if t != "" {
+			only[t] = true
+		}
+	}
 	if err := os.MkdirAll(*out, 0o755); err != nil {
 		fmt.Fprintln(os.Stderr, err)
 		os.Exit(2)
 	}
-	if err := run(*repo, *out); err != nil {
+	if err := run(*repo, *out, only); err != nil {
 		fmt.Fprintln(os.Stderr, "translate:", err)
 		os.Exit(1)
 	}
